@@ -144,6 +144,7 @@ static Result run_bonded(const json &c) {
   const int nb = kind == "bond" ? 2 : (kind == "angle" ? 3 : 4);
   const std::string cname = nb == 2 ? "IBond" : (nb == 3 ? "IAngle" : "IDihedral");
   BoxSpec box = read_box(c);
+  if (c.value("weak_tilt", false)) r.cls("box:barely-tilted");
   std::vector<std::array<double, 3>> p;
   for (auto &pj : c.at("p")) p.push_back({snap(pj[0].get<double>()), snap(pj[1].get<double>()), snap(pj[2].get<double>())});
   if (int(p.size()) != nb) {
@@ -404,6 +405,12 @@ static json gen_bonded(const std::string &kind) {
       return double(rl(-m, m)) / 32.0;
     };
     bx = off(ax), cx = off(ax), cy = off(by);
+    if (rbool(25)) {
+      // barely tilted cells (2^-12 .. 2^-36 of an edge): still triclinic, the image shifts must use the tilted vectors
+      auto weak = [&](double e) { return (rbool(50) ? 1.0 : -1.0) * e * std::pow(2.0, -double(ri(12, 36))); };
+      bx = weak(ax), cx = rbool(50) ? weak(ax) : 0.0, cy = rbool(50) ? weak(by) : 0.0;
+      c["weak_tilt"] = true;
+    }
     bt = rbool(50) ? "tric" : "auto";
   }
   c["boxtype"] = bt;
